@@ -72,6 +72,12 @@ type Op struct {
 	Policy model.Policy `json:"policy,omitempty"`
 	Src    int          `json:"src,omitempty"`  // reattach: pooled handle Src modulo pool size; merge from a handle: see FromHandle
 	From   string       `json:"from,omitempty"` // merge: where the merged value comes from (FromData, FromRepr, FromConfig, FromHandle)
+	// MaxIdx: the operation (Set, SetChild, Remove, Child) is given the option ucfg.MaxIdx(*MaxIdx) in addition
+	// to the options of the case (nil: the default maximum index, 1024)
+	MaxIdx *int64 `json:"maxidx,omitempty"`
+	// Fault > 0: a Merge from generic data whose source holds a value of a type no configuration can hold
+	// (a channel, a function, a complex number) at a place chosen by Fault: the Merge must fail (see reject.go)
+	Fault int `json:"fault,omitempty"`
 }
 
 func (o Op) Addr() Addr { return Addr{o.Name, o.Idx} }
@@ -91,6 +97,12 @@ func (o Op) String() string {
 	}
 	if o.Kind == Reattach {
 		s += fmt.Sprintf(" src=%d", o.Src)
+	}
+	if o.MaxIdx != nil {
+		s += fmt.Sprintf(" MaxIdx(%d)", *o.MaxIdx)
+	}
+	if o.Fault > 0 {
+		s += fmt.Sprintf(" source with a value of unsupported type (fault %d)", o.Fault)
 	}
 	return s
 }
@@ -150,6 +162,12 @@ type Info struct {
 	Retired   int    // handles retired (merge reached their subtree / re-attachment)
 	Pooled    bool   // a handle was added to the pool
 	Receiver  Handle
+	// rejected operations (Rejected): why the model rejects it, and whether the address of a rejected write
+	// has intermediate nodes that do not exist (nothing may be left behind there)
+	RejectWhy    string
+	MissingBelow bool
+	MaxIdxOpt    bool // the operation was given a MaxIdx option
+	AtMax        bool // an accepted write whose explicit index equals the maximum index
 	// empty lists (model.Node.IsList with 0 elements)
 	Emptied      bool // a removal took the last remaining element of a list
 	BelowEmpty   bool // the operation addressed a setting directly below a list with 0 elements (refill, removal, read of nothing)
@@ -394,7 +412,9 @@ func (s *State) Apply(op Op) (Info, error) {
 		return info, nil
 	}
 	info.Receiver = h
-	if op.Kind != Merge && !ValidAddr(op.Name, op.Idx) {
+	isWrite := op.Kind == Set || op.Kind == SetChild
+	if op.Kind != Merge && !ValidAddr(op.Name, op.Idx) && !(isWrite && op.Name == "") {
+		// (a write at a negative index of the receiver's own list part is a rejected write: reject.go)
 		info.Skipped = "address outside the domain"
 		return info, nil
 	}
@@ -404,7 +424,23 @@ func (s *State) Apply(op Op) (Info, error) {
 	}
 	what := fmt.Sprintf("%s on handle #%d", op, h.ID)
 	segs := model.ParseAddr(op.Name, op.Idx, s.Sep)
+	opOpts := s.Opts
+	if op.MaxIdx != nil && op.Kind != Merge && op.Kind != Reattach {
+		if segAbove(op.Name, s.Sep, *op.MaxIdx) {
+			// such a segment is a named key under this option: what numeric segments denote is C20's
+			info.Skipped = "index segment above the MaxIdx option"
+			return info, nil
+		}
+		opOpts = append(append([]ucfg.Option{}, s.Opts...), ucfg.MaxIdx(*op.MaxIdx))
+		info.MaxIdxOpt = true
+	}
 	info.RecvEmpty = h.M.IsEmptyList()
+	if isWrite {
+		if why := outOfRange(op); why != "" {
+			// the model rejects the write whatever the tree holds; nothing is tried on it (no padding up to the index)
+			return s.rejectedWrite(op, h, segs, opOpts, what, why, info)
+		}
+	}
 	if op.Kind != Merge {
 		if par, err := h.M.Lookup(segs[:len(segs)-1]); err == nil && isEmptyList(par) {
 			info.BelowEmpty = true
@@ -426,15 +462,16 @@ func (s *State) Apply(op Op) (Info, error) {
 		pad := padded(h.M, segs)
 		v := model.NewPrim(op.Val.Prim())
 		old, merr := h.M.SetPath(segs, v)
-		err := setPrim(h.C, op.Name, op.Idx, op.Val, s.Opts)
+		missing := missingBelow(h.M, segs)
+		err := setPrim(h.C, op.Name, op.Idx, op.Val, opOpts)
 		if (err == nil) != (merr == nil) {
 			return info, mismatch(what, op, err, merr)
 		}
 		if merr != nil {
-			info.Rejected = true
+			info.Rejected, info.RejectWhy, info.MissingBelow = true, "the path walks through a primitive", missing
 			return info, nil
 		}
-		info.Wrote, info.Padded = true, pad
+		info.Wrote, info.Padded, info.AtMax = true, pad, atMax(op)
 		info.Overlap = s.containsWritten(old)
 		s.written[v] = true
 		s.sides(h, segs, old, &info)
@@ -470,15 +507,15 @@ func (s *State) Apply(op Op) (Info, error) {
 		}
 		pad := padded(h.M, segs)
 		old, merr := h.M.SetPath(segs, m)
-		err := uc.Safe("SetChild", func() error { return h.C.SetChild(op.Name, op.Idx, fresh, s.Opts...) })
+		err := uc.Safe("SetChild", func() error { return h.C.SetChild(op.Name, op.Idx, fresh, opOpts...) })
 		if (err == nil) != (merr == nil) {
 			return info, mismatch(what, op, err, merr)
 		}
 		if merr != nil {
-			info.Rejected = true
+			info.Rejected, info.RejectWhy = true, "the path walks through a primitive"
 			return info, nil
 		}
-		info.Wrote, info.Padded = true, pad
+		info.Wrote, info.Padded, info.AtMax = true, pad, atMax(op)
 		info.Overlap = s.containsWritten(old)
 		s.written[m] = true
 		s.sides(h, segs, old, &info)
@@ -486,7 +523,7 @@ func (s *State) Apply(op Op) (Info, error) {
 		var ch *ucfg.Config
 		if err := uc.Safe("Child", func() error {
 			var e error
-			ch, e = h.C.Child(op.Name, op.Idx, s.Opts...)
+			ch, e = h.C.Child(op.Name, op.Idx, opOpts...)
 			return e
 		}); err != nil || ch == nil {
 			return info, fmt.Errorf("%s: Child at the address just given to SetChild failed: %v", what, err)
@@ -506,14 +543,14 @@ func (s *State) Apply(op Op) (Info, error) {
 		var got bool
 		err := uc.Safe("Remove", func() error {
 			var e error
-			got, e = h.C.Remove(op.Name, op.Idx, s.Opts...)
+			got, e = h.C.Remove(op.Name, op.Idx, opOpts...)
 			return e
 		})
 		if (err == nil) != (merr == nil) {
 			return info, mismatch(what, op, err, merr)
 		}
 		if merr != nil {
-			info.Rejected = true
+			info.Rejected, info.RejectWhy = true, "the path walks through a primitive"
 			return info, nil
 		}
 		if got != removed {
@@ -652,6 +689,9 @@ func (s *State) Apply(op Op) (Info, error) {
 			}
 			src = op.Val.Go()
 			info.Source = "generic data"
+			if op.Fault > 0 {
+				return s.rejectedMerge(op, h, src, what, info)
+			}
 		}
 		info.SrcList, info.SrcDict = len(from.A) > 0, len(from.D) > 0
 		from.Walk(nil, func(_ []model.Seg, n *model.Node) {
@@ -725,7 +765,7 @@ func (s *State) Apply(op Op) (Info, error) {
 		var ch *ucfg.Config
 		err := uc.Safe("Child", func() error {
 			var e error
-			ch, e = h.C.Child(op.Name, op.Idx, s.Opts...)
+			ch, e = h.C.Child(op.Name, op.Idx, opOpts...)
 			return e
 		})
 		if merr == nil && n.Kind == "nil" {
@@ -740,7 +780,7 @@ func (s *State) Apply(op Op) (Info, error) {
 			return info, mismatch(what, op, err, merr)
 		}
 		if merr != nil {
-			info.Rejected = true
+			info.Rejected, info.RejectWhy = true, "no container there"
 			return info, nil
 		}
 		if ch == nil {
@@ -915,6 +955,14 @@ type GenCfg struct {
 	// given to NewFrom (the initial tree, fresh *Config sources) spells part of its structure in dotted keys
 	// (FoldKeys: "l.02.x": 1 for l: [nil, nil, {x: 1}]), list indices in every integer syntax (Respell)
 	Dotted int
+	// OverIdx (out of 20): chance that a Set / SetChild becomes a write at the boundary of the index range
+	// (reject.go: explicit index above / at the maximum index, which is the default or a MaxIdx option of the
+	// operation; negative index; at addresses extended by segments nothing was written to), and half that
+	// chance that a Remove / Child is given a MaxIdx option that does not change what its address denotes
+	OverIdx int
+	// BadMerge (out of 20): chance that a Merge from generic data holds a value of unsupported type somewhere
+	// (the Merge must fail and change nothing)
+	BadMerge int
 }
 
 // listOf splits an address that denotes a list element into the address of the
@@ -1194,6 +1242,15 @@ func Gen(t *rapid.T, g *GenCfg) Case {
 				sp := spell(t, g, a, c.PathSep, "")
 				op.Name, op.Idx = sp.Name, sp.Idx
 			}
+			if g.OverIdx > 0 {
+				switch x := rapid.IntRange(0, 39).Draw(t, "overidx"); {
+				case (kind == Set || kind == SetChild) && x < 2*g.OverIdx:
+					boundaryWrite(t, g, &op)
+				case (kind == Remove || kind == Child) && x < g.OverIdx:
+					m := rapid.SampledFrom(smallMax).Draw(t, "opmaxidx")
+					op.MaxIdx = &m
+				}
+			}
 		}
 		dotted := g.Dotted > 0 && c.PathSep && (kind == SetChild || kind == Merge) && rapid.IntRange(0, 9).Draw(t, "dotted") < g.Dotted
 		switch kind {
@@ -1249,6 +1306,9 @@ func Gen(t *rapid.T, g *GenCfg) Case {
 					}
 					op.Name = respellName(t, g, op.Name, c.PathSep, "embed")
 				}
+			}
+			if g.BadMerge > 0 && op.From == FromData && rapid.IntRange(0, 19).Draw(t, "badmerge") < g.BadMerge {
+				op.Fault = rapid.IntRange(1, 12).Draw(t, "fault")
 			}
 			if g.Sources > 0 && op.Val != nil {
 				// steer later operations to what this merge brings in: through the receiver
